@@ -77,6 +77,378 @@ def stencil(t, x, h):
     return (f[0] - 8 * f[1] + 8 * f[2] - f[3]) / (12 * h), f
 
 
+def stencil_at(t, name, opts, eff, x, j, L):
+    """the property's stencil at the interior point x (local scale L, jacobian j):
+    None where it does not apply (noisy parameters, steps not exactly representable,
+    forward not finite, difference quotient not accurate enough), else
+    (h, finite difference, forward at the 4 stencil points, rounding bound of the quotient)"""
+    if noisy_params(name, eff) or not math.isfinite(L) or not L > 0:
+        return None
+    h = 2.0 ** math.floor(math.log2(L / 256))
+    st = stencil(t, x, h)
+    if st is None:
+        return None
+    fd, fvals = st
+    # rounding of the stencil itself: 2^-53 * amplification of forward / h
+    af = max(tc.amp(name, "fwd", opts, eff, xx, fv) for xx, fv in
+             zip([x - 2 * h, x - h, x + h, x + 2 * h], fvals))
+    noise = 32 * tc.U * af / h if math.isfinite(af) else math.inf
+    if not noise <= 2e-5 * abs(j):
+        return None            # the difference quotient is not accurate enough here
+    return h, fd, fvals, noise
+
+
+# ----------------------------------------------------------------------------
+# input classes R and S (oracle only; the model is a pure function of the values)
+#
+# R  representations: the SAME domain points handed to jacobian/forward through every
+#    representation of a float64 input - python float, numpy scalar, 1-/2-/3-d arrays,
+#    C / Fortran order, transposed and axes-permuted views, strided / reversed / column
+#    / block views of larger arrays (NaN around them), read-only, non-native byte
+#    order, DataFrame.to_numpy().  Element [idx] of jacobian(X) must be the derivative
+#    of forward at X[idx].
+# S  sequences: ONE transform object and ONE array object (a work buffer) taken through
+#    a sequence of operations - parameters changed the ways the API offers, buffer
+#    refilled / perturbed IN PLACE between calls, forward and jacobian called in varying
+#    orders, the stencil itself evaluated by perturbing the buffer in place.  After every
+#    operation jacobian(buffer) must be the derivative of forward at the buffer's
+#    CURRENT content.
+# Oracle for both = the clauses of the property, element-wise: jacobian > 0, jacobian
+# within 1e-4 of the derivative (reference: the jacobian of a fresh object on a fresh
+# contiguous 1-d array, which the main loop ties to the model by E3, and the 5-point
+# stencil of forward evaluated THROUGH the representation / the buffer), forward
+# non-decreasing over the elements.
+
+REL = 1e-4
+PATTERNS = (("jac",), ("fwd", "jac"), ("jac", "jac"), ("jac", "fwd"), ("fwd", "fwd", "jac"))
+
+
+def _nanbox(shape, order="C"):
+    return np.full(shape, np.nan, order=order)
+
+
+def _r_strided(M, order="C"):
+    big = _nanbox(tuple(3 * s for s in M.shape), order)
+    sl = tuple(slice(1, None, 3) for _ in M.shape)
+    big[sl] = M
+    return big[sl]
+
+
+def _r_reversed(M):
+    rev = tuple(slice(None, None, -1) for _ in M.shape)
+    return M[rev].copy()[rev]
+
+
+def _r_readonly(M):
+    a = M.copy()
+    a.setflags(write=False)
+    return a
+
+
+def _r_column(M):
+    col = _nanbox((M.shape[0], 3))
+    col[:, 1] = M
+    return col[:, 1]
+
+
+def _r_block(M):
+    wide = _nanbox(M.shape[:-1] + (M.shape[-1] + 2,))
+    wide[..., 1:-1] = M
+    return wide[..., 1:-1]
+
+
+def _r_dataframe(M):
+    import pandas as pd
+    return pd.DataFrame({f"c{k}": M[:, k] for k in range(M.shape[1])}).to_numpy()
+
+
+def _r_permuted(M):
+    return np.ascontiguousarray(np.transpose(M, (1, 2, 0))).transpose(2, 0, 1)
+
+
+# (label, dimensions it applies to, builder: C-contiguous float64 M -> equal array)
+REPRESENTATIONS = [
+    ("C-contiguous", (1, 2, 3), lambda M: M.copy()),
+    ("read-only", (1, 2), _r_readonly),
+    ("non-native byte order", (1, 2), lambda M: M.astype(M.dtype.newbyteorder())),
+    ("strided view a[1::3, ...] of a larger array", (1, 2, 3), _r_strided),
+    ("reversed view a[::-1, ...]", (1, 2, 3), _r_reversed),
+    ("column view a[:, 1] of a 2-d array", (1,), _r_column),
+    ("Fortran order", (2, 3), lambda M: np.asfortranarray(M)),
+    ("transposed view a.T", (2, 3), lambda M: np.ascontiguousarray(M.T).T),
+    ("strided view of a Fortran-ordered array", (2, 3), lambda M: _r_strided(M, "F")),
+    ("block view a[..., 1:-1] of a wider array", (2, 3), _r_block),
+    ("DataFrame.to_numpy()", (2,), _r_dataframe),
+    ("axes-permuted view a.transpose(2, 0, 1)", (3,), _r_permuted),
+    ("python float", (0,), lambda M: float(M)),
+    ("numpy.float64 scalar", (0,), lambda M: np.float64(M)),
+]
+
+SHAPES = {12: [(12,), (3, 4), (2, 3, 2)], 8: [(8,), (2, 4), (2, 2, 2)], 6: [(6,), (2, 3)],
+          4: [(4,), (2, 2)], 3: [(3,)], 2: [(2,)], 1: [(1,)]}
+
+
+def describe(A):
+    if isinstance(A, np.ndarray):
+        return {"type": "ndarray", "shape": list(A.shape), "strides": list(A.strides), "dtype": A.dtype.str,
+                "c_contiguous": bool(A.flags.c_contiguous), "f_contiguous": bool(A.flags.f_contiguous),
+                "writeable": bool(A.flags.writeable), "owndata": bool(A.flags.owndata)}
+    return {"type": type(A).__name__}
+
+
+def _tolist(A):
+    return np.asarray(A, dtype=np.float64).tolist()
+
+
+def call_on(t, method, A):
+    """t.<method>(A) on the very object A -> (flat C-order list of floats, shape, None) or
+    (None, None, exception)"""
+    f = {"fwd": t.forward, "jac": t.jacobian}[method]
+    try:
+        with np.errstate(all="ignore"):
+            r = f(A)
+        r = np.asarray(r, dtype=np.float64)
+        return [float(v) for v in r.ravel(order="C")], tuple(r.shape), None
+    except Exception as e:      # noqa: BLE001 - any exception of the implementation is an outcome
+        return None, None, f"{type(e).__name__}: {e}"
+
+
+def point_records(name, opts, eff, t, xs):
+    """interior points with their reference values: jacobian / forward of `t` (a fresh object)
+    on a fresh contiguous 1-d array, and the step of the property's stencil where it applies"""
+    if not xs:
+        return []
+    js, _ = tc.call(t, "jac", xs)
+    fs, _ = tc.call(t, "fwd", xs)
+    if js is None:
+        return []
+    recs, seen = [], set()
+    for i, x in enumerate(xs):
+        j = js[i]
+        L = local_scale(name, opts, eff, x)
+        if x in seen or not (L > 0 and math.isfinite(j) and j > 0):
+            continue
+        seen.add(x)
+        sa = stencil_at(t, name, opts, eff, x, j, L)
+        recs.append({"x": x, "j": j, "f": None if fs is None else fs[i],
+                     "h": sa[0] if sa else 0.0, "noise": sa[3] if sa else None})
+    return recs
+
+
+def eval_elements(ctx, tag, name, opts, eff, rep0, t, recs, idxs, shape, put, pattern, recheck):
+    """the clauses of the property on every element of one array.  `put(M)` hands the
+    content M (C-contiguous, `shape`) over as the array object to be passed to the
+    transform (a new array in some representation, or THE buffer overwritten in place);
+    `pattern`: the calls made on it, in order.  Returns False after the first report."""
+    sel = [recs[i] for i in idxs]
+    X = np.array([r["x"] for r in sel], dtype=np.float64).reshape(shape)
+    H = np.array([r["h"] for r in sel], dtype=np.float64).reshape(shape)
+    who = f"{name}{opts} {eff}"
+
+    def fail(mode, extra, text):
+        ctx.failure(f"C02/{name}/{tag}-{mode}", dict(rep0, **extra), f"{who}: {text}")
+        return False
+
+    A = put(X)
+    desc = describe(A)
+    rep0 = dict(rep0, array=desc, x=_tolist(X), calls=list(pattern))
+    last = {}
+    for m in pattern:
+        out, oshape, err = call_on(t, m, A)
+        meth = {"fwd": "forward", "jac": "jacobian"}[m]
+        if out is None:
+            return fail(f"{meth}-raises", {"method": meth, "exception": err},
+                        f"{meth}(x) raised {err} for x = {_tolist(X)} passed as {desc} "
+                        f"(calls on this array: {list(pattern)})")
+        if len(out) != X.size or (X.ndim > 0 and oshape != X.shape):
+            return fail(f"{meth}-shape", {"method": meth, "output": out, "output_shape": list(oshape)},
+                        f"{meth}(x) has shape {oshape} for x of shape {X.shape} passed as {desc}: "
+                        "its elements cannot be the derivative at the elements of x")
+        last[m] = out
+    if "fwd" not in last:
+        last["fwd"], _, err = call_on(t, "fwd", A)
+        if last["fwd"] is None or len(last["fwd"]) != X.size:
+            return fail("forward-raises", {"method": "forward", "exception": err},
+                        f"forward(x) raised {err} (or lost elements) for x = {_tolist(X)} passed as {desc}")
+    changed = not np.array_equal(np.asarray(A, dtype=np.float64), X)
+    # the stencil, evaluated through the same representation / the same buffer
+    Fd = {}
+    if np.any(H > 0):
+        for d in (-2, -1, 1, 2):
+            Fd[d], _, _ = call_on(t, "fwd", put(X + d * H))
+            if Fd[d] is None or len(Fd[d]) != X.size:
+                Fd = {}
+                break
+    checks = [("jacobian(x)", last["jac"])]
+    if recheck:
+        A = put(X)
+        j2, _, err = call_on(t, "jac", A)
+        if j2 is None or len(j2) != X.size:
+            return fail("jacobian-raises", {"method": "jacobian", "exception": err},
+                        f"jacobian(x) raised {err} (or lost elements) when x = {_tolist(X)} was passed again "
+                        f"as {desc}")
+        checks.append(("jacobian(x) after the array went through the stencil values and back", j2))
+    note = " [the content of x was modified by the calls]" if changed else ""
+    for p, r in enumerate(sel):
+        idx = list(np.unravel_index(p, shape)) if shape else []
+        for label, J in checks:
+            j = J[p]
+            ext = {"method": "jacobian", "index": idx, "x_at_index": r["x"], "output": j,
+                   "output_all": J, "reference_jacobian": r["j"]}
+            if not j > 0:
+                return fail("jacobian-not-positive", ext,
+                            f"{label}{idx} = {j!r} is not positive at x{idx} = {r['x']!r}; x = {_tolist(X)} "
+                            f"passed as {desc}{note}")
+            if not abs(j - r["j"]) <= REL * abs(r["j"]):
+                return fail("jacobian-differs-from-derivative", ext,
+                            f"{label}{idx} = {j!r} but the derivative of forward at x{idx} = {r['x']!r} is "
+                            f"{r['j']!r} (jacobian of a fresh object on a fresh 1-d array); x = {_tolist(X)} "
+                            f"passed as {desc}{note}")
+        if Fd and r["h"] > 0:
+            h = r["h"]
+            fv = [Fd[d][p] for d in (-2, -1, 1, 2)]
+            fd = (fv[0] - 8 * fv[1] + 8 * fv[2] - fv[3]) / (12 * h)
+            j = last["jac"][p]
+            ctx.count((name, tag, "stencil"))
+            if not abs(fd - j) <= REL * abs(j) + r["noise"]:
+                return fail("jacobian-differs-from-finite-difference",
+                            {"method": "jacobian", "index": idx, "x_at_index": r["x"], "output": j, "h": h,
+                             "finite_difference": fd, "forward_at_stencil": fv},
+                            f"jacobian(x){idx} = {j!r} at x{idx} = {r['x']!r}, 5-point central difference of "
+                            f"forward (h={h!r}, evaluated through the same array) = {fd!r}; x = {_tolist(X)} "
+                            f"passed as {desc}{note}")
+    # forward increasing over the elements
+    pairs = sorted((r["x"], f) for r, f in zip(sel, last["fwd"]) if math.isfinite(f))
+    for (x1, f1), (x2, f2) in zip(pairs, pairs[1:]):
+        if x1 == x2:
+            continue
+        if name == "YeoJohnson":
+            w1 = eff["nu"] + x1 * eff["scale"]
+            w2 = eff["nu"] + x2 * eff["scale"]
+            if 0 < w1 < tc.eps() or 0 < w2 < tc.eps():
+                continue
+        a1 = tc.amp(name, "fwd", opts, eff, x1, f1)
+        a2 = tc.amp(name, "fwd", opts, eff, x2, f2)
+        slack = 16 * tc.U * (a1 + a2) if math.isfinite(a1 + a2) else math.inf
+        if not f1 <= f2 + slack:
+            return fail("forward-not-increasing",
+                        {"method": "forward", "x1": x1, "x2": x2, "f1": f1, "f2": f2, "output_all": last["fwd"]},
+                        f"forward(x) has {f1!r} at the element {x1!r} > {f2!r} at the element {x2!r}; "
+                        f"x = {_tolist(X)} passed as {desc}{note}")
+    ctx.count((name, tag, desc["type"], len(shape)), n=X.size)
+    return True
+
+
+def representation_checks(ctx):
+    """input class R for the 12 element-wise classes"""
+    rng = ctx.rng
+    nrep = 0
+    for name in tc.CLASSES:
+        if name == "Softmax":
+            continue
+        variants = tc.ctor_variants(name, rng, c02=True)
+        nvec = ctx.scale(NVEC_QUICK[name], 5 * NVEC_QUICK[name] + 10)
+        for k in range(nvec):
+            opts = variants[k % len(variants)]
+            vals = vec_k(name, opts, rng, k)
+            cm.mark({"call": "transform.jacobian (representations)", "class": name, "opts": opts, "vals": vals})
+            t, eff = tc.make(name, opts, vals, k % 2 == 1)
+            recs = point_records(name, opts, eff, t, tc.points(name, opts, eff, rng, 12))
+            n = max([m for m in SHAPES if m <= len(recs)], default=0)
+            if not n:
+                continue
+            base = {"class": name, "opts": opts, "values": eff,
+                    "input_class": "representations of the input (R)"}
+            for shape in SHAPES[n] + [()]:
+                for ri, (label, dims, build) in enumerate(REPRESENTATIONS):
+                    if len(shape) not in dims:
+                        continue
+                    if not shape and name == "YeoJohnson":
+                        # its methods work on atleast_1d copies and dutils.cast converts the 1-element
+                        # result with float(): TypeError under numpy >= 2.? on the unchanged tree for
+                        # every 0-d input (no value is wrong; C01 leaves it out for the same reason)
+                        continue
+                    off = (k + ri) % len(recs)
+                    idxs = [(off + p) % len(recs) for p in range(int(np.prod(shape)))]
+                    fresh, _ = tc.make(name, opts, eff)
+                    nrep += 1
+                    if not eval_elements(ctx, "representation", name, opts, eff, dict(base, representation=label),
+                                         fresh, recs, idxs, shape, build, ("jac", "fwd"), False):
+                        break
+    ctx.notes["representation_arrays"] = nrep
+
+
+def sequence_checks(ctx):
+    """input class S for the 12 element-wise classes"""
+    rng = ctx.rng
+    nsteps = ctx.scale(6, 20)
+    nbuf = 6
+    buffers = [("1-d buffer", (nbuf,), lambda: np.zeros(nbuf)),
+               ("2-d buffer", (2, 3), lambda: np.zeros((2, 3))),
+               ("Fortran-ordered 2-d buffer", (2, 3), lambda: np.zeros((2, 3), order="F")),
+               ("strided view used as buffer", (nbuf,), lambda: np.zeros(2 * nbuf)[::2])]
+    nobj = 0
+    for name in tc.CLASSES:
+        if name == "Softmax":
+            continue
+        variants = tc.ctor_variants(name, rng, c02=True)
+        for oi in range(ctx.scale(2, max(3, len(variants)))):
+            opts = variants[oi % len(variants)]
+            if tc.bounds(name, opts):
+                first, steps = tc.stateful_plan(name, opts, rng, nsteps)
+            else:                                   # Identity: nothing to set
+                first, steps = {}, [("none", {})] * nsteps
+            blabel, shape, alloc = buffers[(oi + len(name)) % len(buffers)]
+            buf = alloc()
+            cm.mark({"call": "transform (sequence)", "class": name, "opts": opts, "first": first, "steps": steps})
+            t, _ = tc.make(name, opts, first, via_get=oi % 2 == 1)
+            nobj += 1
+            history = [("construct", first)]
+
+            def put(M, buf=buf):
+                buf[...] = M
+                return buf
+
+            alive = True
+            for si in range(len(steps) + 1):
+                if si:
+                    style, changes = steps[si - 1]
+                    if style != "none":
+                        history.append((style, changes))
+                        try:
+                            tc.apply_step(t, style, changes)
+                        except Exception as e:      # noqa: BLE001
+                            ctx.failure(f"C02/{name}/sequence-set-raises",
+                                        {"class": name, "opts": opts, "history": history, "exception": repr(e)},
+                                        f"{name}{opts}: {style} {changes} raised {type(e).__name__}")
+                            break
+                eff = tc.stored_values(t)
+                if any(math.isnan(v) for v in eff.values()):
+                    continue
+                fresh, eff2 = tc.make(name, opts, eff)
+                if eff2 != eff:
+                    continue
+                recs = point_records(name, opts, eff, fresh, tc.points(name, opts, eff, rng, 9))
+                if len(recs) < 2:
+                    continue
+                # the buffer is refilled in place twice per setting: every element changes
+                for fill in range(2):
+                    off = rng.randrange(len(recs)) if fill == 0 else off + 1 + rng.randrange(len(recs) - 1)
+                    idxs = [(off + p) % len(recs) for p in range(nbuf)]
+                    pattern = PATTERNS[(si + fill + oi) % len(PATTERNS)]
+                    history.append(("buffer refilled in place, then " + ", ".join(pattern) + ", stencil in place, jac",
+                                    [recs[i]["x"] for i in idxs]))
+                    rep0 = {"class": name, "opts": opts, "values": eff, "history": list(history), "buffer": blabel,
+                            "input_class": "sequence of operations on one object and one array (S)"}
+                    alive = eval_elements(ctx, "sequence", name, opts, eff, rep0, t, recs, idxs, shape, put,
+                                          pattern, True)
+                    if not alive:
+                        break
+                if not alive:
+                    break
+    ctx.notes["sequence_objects"] = nobj
+
+
 def run(ctx):
     ctx.rule = ("12 scalar classes x constructor-option variants (log base > 1) x parameter vectors as in "
                 "C01 x interior domain points; jacobian through the public API; Softmax: 2-D rows; "
@@ -128,7 +500,6 @@ def run(ctx):
             base = {"class": name, "opts": opts, "values": eff, "via_get_transform": via_get}
             js, err = tc.call(t, "jac", xs)
             fs, ferr = tc.call(t, "fwd", xs)
-            noisy = noisy_params(name, eff)
             for i, x in enumerate(xs):
                 j = None if js is None else js[i]
                 sig = branch_sig(name, eff, x)
@@ -159,19 +530,10 @@ def run(ctx):
                     ctx.failure(f"C02/{name}/jacobian-not-positive", rep,
                                 f"{name}{opts} {eff}: jacobian({x!r}) = {j!r} is not positive")
                 # oracle 2: 5-point central difference of forward
-                if noisy or not math.isfinite(L):
+                sa = stencil_at(t, name, opts, eff, x, j, L)
+                if sa is None:
                     continue
-                h = 2.0 ** math.floor(math.log2(L / 256))
-                st = stencil(t, x, h)
-                if st is None:
-                    continue
-                fd, fvals = st
-                # rounding of the stencil itself: 2^-53 * amplification of forward / h
-                af = max(tc.amp(name, "fwd", opts, eff, xx, fv) for xx, fv in
-                         zip([x - 2 * h, x - h, x + h, x + 2 * h], fvals))
-                noise = 32 * tc.U * af / h if math.isfinite(af) else math.inf
-                if not noise <= 2e-5 * abs(j):
-                    continue            # the difference quotient is not accurate enough here
+                h, fd, fvals, noise = sa
                 ctx.count((name, "stencil", sig))
                 if not abs(fd - j) <= 1e-4 * abs(j) + noise:
                     if gi is not None:
